@@ -47,6 +47,7 @@ type WorkerResult struct {
 	Worker       int               `json:"worker"`
 	BaseSeed     uint64            `json:"base_seed"`
 	Runs         int               `json:"runs"`
+	Scenarios    int               `json:"scenarios"`
 	NonTrivial   int               `json:"nontrivial"`
 	Inconclusive map[string]int    `json:"inconclusive,omitempty"`
 	Infra        []string          `json:"infra,omitempty"`
@@ -183,7 +184,13 @@ func TestWorker(t *testing.T) {
 		variant := pe.Variants[i%len(pe.Variants)]
 		tp := simrt.NewTape(seed)
 		o := eng(t, tp, RunOpts{Prop: prop, Variant: variant, Thorough: thorough, Trace: i < 2 && worker == 0})
-		res.Runs++
+		if o.Evals > 1 {
+			res.Runs += o.Evals
+			res.Scenarios++
+		} else {
+			res.Runs++
+			res.Scenarios++
+		}
 		res.Variants[variant]++
 		res.Steps += int64(o.Steps)
 		res.Ops += int64(o.Ops)
